@@ -6,6 +6,8 @@ mod termconf;
 mod show;
 mod est;
 mod sched;
+mod tpl;
+mod stylebuild;
 
 use std::io::{BufRead, BufWriter, Write};
 
@@ -88,6 +90,8 @@ fn main() {
                 est::run_history(&hist, &mut out);
             }
         }
+        "tpl" => stylebuild::run_forked(input, &mut out, tpl::run_history, tpl::abort_rec),
+        "stylebuild" => stylebuild::run_all(input, &mut out),
         "show" => {
             clock::enable();
             for line in input.lines() {
